@@ -15,7 +15,7 @@ def U(module, func, name, **kw):
 
 
 TOKEN = [K("tokenize.py::Token.__getitem__"), K("tokenize.py::Token.__add__"),
-         K("tokenize.py::Token.split"), K("tal.py::split_parts"),
+         K("tokenize.py::Token.split"), K("tal.py::split_parts"), K("tal.py::parse_substitution"),
          K("tokenize.py::Token.replace"), K("tokenize.py::Token.lstrip"),
          K("tokenize.py::Token.rstrip"), K("tokenize.py::Token.strip"),
          K("tokenize.py::Token.lstrip@chars"), K("tokenize.py::Token.rstrip@chars"),
